@@ -120,12 +120,35 @@ def g2(rep, w):
     init = w.yarel.consts.get('yarel::common::HEAP_INIT_BYTES_MAX', {}).get('v')
     if sub_block is not None and mul_block is not None:
         order_ok = (mul_block in h.reachable_blocks(sub_block) and sub_block not in h.reachable_blocks(mul_block)) or sub_block == mul_block
-    writes_thr = any('collection_threshold' in [e.get('n') for e in s.get('d', {}).get('p', []) if isinstance(e, dict)]
-                     for b in h.blocks for s in b['s'])
+    writes_thr = False
+    pure = True
+    why = ''
+    for b in h.blocks:
+        for s in b['s']:
+            d = s.get('d', {})
+            if 'collection_threshold' in [e.get('n') for e in d.get('p', []) if isinstance(e, dict)]:
+                writes_thr = True
+                pl = op_place(s['r'].get('o', {}) or {}) if s['r'].get('rv') == 'use' else None
+                paths = horg.get(pl['l'], set()) if pl else set()
+                for q in paths:
+                    toks = [t for t in q[1:] if not t.startswith('@') and t != '*']
+                    if q[0][0] == 'call':
+                        pure = False
+                        why = 'goes through %s' % q[0][2]
+                    elif q[0][0] == 'arg' and 'collection_threshold' in toks:
+                        pure = False
+                        why = 'depends on the previous threshold'
+                    elif q[0][0] == 'arg' and 'bytes_allocated' not in toks:
+                        pure = False
+                        why = 'depends on %s' % toks
+                if not paths:
+                    pure = False
+                    why = 'is not a computed value'
+    writes_thr = writes_thr and pure
     r.check(sub_block is not None and mul_block is not None and order_ok and writes_thr and mul_const == growth,
             'collect: threshold = (bytes_allocated - freed) * HEAP_GROWTH_FACTOR',
-            'collect does not recompute collection_threshold from the post-sweep bytes_allocated and common::HEAP_GROWTH_FACTOR '
-            '(sub@%s mul@%s const=%s growth=%s)' % (sub_block, mul_block, mul_const, growth), h.loc())
+            'collect does not set collection_threshold to exactly (post-sweep bytes_allocated) x common::HEAP_GROWTH_FACTOR: the new threshold %s '
+            '(sub@%s mul@%s const=%s growth=%s)' % (why or 'is computed differently', sub_block, mul_block, mul_const, growth), h.loc())
     r.note('HEAP_GROWTH_FACTOR=%s HEAP_INIT_BYTES_MAX=%s (reported, not judged)' % (growth, init))
     # sweep really frees: objects.retain exists and collect calls mark_roots, trace_references, sweep in this order
     order = [callee_name(t) for _, t in sorted(h.calls())]
